@@ -242,6 +242,9 @@ dt_strp(const char *str, char **on, size_t len)
 		goto nul;
 	}
 	/* that's the month gone */
+	if (UNLIKELY(!tmp || tmp > 12U)) {
+		goto nul;
+	}
 	res.m = tmp;
 
 	/* again, advance over ISO-8601 separator */
@@ -273,6 +276,9 @@ dt_strp(const char *str, char **on, size_t len)
 		goto nul;
 	} else if ((uint8_t)(*sp ^ '0') < 10U) {
 		tmp += *sp++ ^ '0';
+		if (UNLIKELY(!tmp || tmp > 31U)) {
+			goto nul;
+		}
 		res.d = tmp;
 	} else {
 		goto nul;
